@@ -304,10 +304,11 @@ type rtUpdate struct {
 }
 
 type rtSubmit struct {
-	kind string
-	qlen int
-	skip bool
-	step int
+	kind     string
+	qlen     int
+	skip     bool
+	step     int // arrival at the hook (before the send)
+	doneStep int // the step in which the monitor left the hook, i.e. performed the send (0: never)
 }
 
 type rtInstall struct {
@@ -432,6 +433,9 @@ func (r *rtRun) hook(point string, args ...any) {
 		default:
 			data = "unknown"
 		}
+	}
+	if an == "mon" && len(r.submits) > 0 && r.submits[len(r.submits)-1].doneStep == 0 && point != "mon.submit" {
+		r.submits[len(r.submits)-1].doneStep = r.stepNo
 	}
 	if point == "mon.top" {
 		r.monSkip = args[0].(bool)
